@@ -243,57 +243,6 @@ def oracle(case):
     return None
 
 
-def kf_idna_ideographic_full_stop(case, failure):
-    """KF-C01-3: the only law failures of the case are IdnaLaws.same_name on labels that CPython's
-    own idna codec (not ural) decodes - its round-trip check passes - to the very text ural
-    returns, and that text holds U+3002 IDEOGRAPHIC FULL STOP, which IDNA reads as a label
-    separator ('xn--ab-r13a' -> 'a。b': the canonical host has one label more)"""
-    if not failure.startswith("IdnaLaws.same_name fails"):
-        return False
-    tab = urlrt.puny_of(cc.clean_impl(_url(case), case["dp"]))
-    n = 0
-    for x, d in tab.items():
-        for f in punylaws.label_failures(x, d):
-            if f[:2] != ("IdnaLaws", "same_name"):
-                return False
-            try:
-                ref = x.encode("ascii").decode("idna")
-            except UnicodeError:
-                return False
-            if ref != d or punylaws.IDEOGRAPHIC_FULL_STOP not in d:
-                return False
-            n += 1
-    return n > 0
-
-
-def kf_idna_late_delimiter_lookalike(case, failure):
-    """KF-C01-4: the output is refused by urlsplit's NFKC check (and by nothing else: no law of the
-    decoder fails) because a label of the host is an ACE label that CPython's own idna codec
-    decodes to the very text ural returns, and that text holds a character that Unicode 3.2 (the
-    codec's database) does not know and whose compatibility form in today's Unicode holds one of
-    '/?#@:' (U+FE13 -> ':', U+FE16 -> '?')"""
-    import unicodedata
-
-    if "no longer parses" not in failure or "under NFKC normalization" not in failure or failure.endswith("]"):
-        return False
-    tab = urlrt.puny_of(cc.clean_impl(_url(case), case["dp"]))
-    if punylaws.failures(tab):
-        return False
-    n = 0
-    for x, d in tab.items():
-        try:
-            ref = x.encode("ascii").decode("idna")
-        except UnicodeError:
-            ref = x
-        if ref != d:
-            return False
-        for c in d:
-            now = unicodedata.normalize("NFKC", c)
-            if now != c and any(k in now for k in "/?#@:"):
-                if unicodedata.ucd_3_2_0.category(c) != "Cn":
-                    return False
-                n += 1
-    return n > 0
 
 
 def nontrivial(case):
